@@ -141,7 +141,10 @@ func corrC15(outDir string, seed uint64, tier string, replay string) *report {
 				continue
 			}
 			p, _ := s.params(h)
-			if seen[string(p.salt)] && len(p.salt) > 2 {
+			// pairwise distinctness is demanded only where a repeat among N uniform draws is practically impossible
+			// (>= 48 bits of salt: probability < 1e-6 for N = 20000); smaller salt spaces (DES: 12 bits, extended DES:
+			// 24 bits) repeat by the birthday bound and are judged by the NUMBER of repeats below
+			if seen[string(p.salt)] && len(p.salt) >= 8 {
 				rep.fail(map[string]interface{}{"scheme": s.name, "calls": k}, "all salts distinct", string(p.salt), "a salt repeated")
 			}
 			seen[string(p.salt)] = true
@@ -154,6 +157,17 @@ func corrC15(outDir string, seed uint64, tier string, replay string) *report {
 			continue
 		}
 		L := len(salts[0])
+		if L < 8 {
+			// repeats among n uniform draws from M = 64^L values: expectation n - M(1-(1-1/M)^n), Poisson-like spread
+			n, M := float64(len(salts)), math.Pow(64, float64(L))
+			expRep := n - M*(1-math.Pow(1-1/M, n))
+			got := float64(len(salts) - len(seen))
+			if bound := expRep + 8.5*math.Sqrt(expRep+1) + 1; got > bound {
+				rep.fail(map[string]interface{}{"scheme": s.name, "calls": len(salts)}, fmt.Sprintf("at most %.0f repeated salts (uniform over 64^%d values: %.1f expected)", bound, L, expRep),
+					fmt.Sprintf("%.0f repeats, %d distinct salts", got, len(seen)), "salts repeat far more often than uniform draws would")
+			}
+			rep.Distribution["real_repeats_"+s.name] = int(got)
+		}
 		counts := map[byte]int{}
 		perPos := make([]map[byte]bool, L)
 		for i := range perPos {
@@ -207,6 +221,6 @@ func corrC15(outDir string, seed uint64, tier string, replay string) *report {
 	}
 	must(cs.flush())
 	rep.CaseSets = []string{"C15_salt"}
-	rep.Rule = "scripted part: crypto/rand.Reader replaced by a known byte stream (random, constant, low-bits-only, high-bits-set); the salt NewHash produced (read back through Params/Salt) vs the Coq model and vs the documented construction; sha1 random rounds vs its formula and window. Real-source part: N calls per scheme: salts pairwise distinct, only alphabet symbols, symbol frequencies within 8.5 sigma (thorough: every symbol at every position). Every case non-trivial; distinct by (scheme, stream) / call index."
+	rep.Rule = "scripted part: crypto/rand.Reader replaced by a known byte stream (random, constant, low-bits-only, high-bits-set); the salt NewHash produced (read back through Params/Salt) vs the Coq model and vs the documented construction; sha1 random rounds vs its formula and window. Real-source part: N calls per scheme: salts pairwise distinct (48-bit salts and larger; for the 12- and 24-bit salts of DES / extended DES the number of repeats is bounded by expectation + 8.5 sigma), only alphabet symbols, symbol frequencies within 8.5 sigma (thorough: every symbol at every position). Every case non-trivial; distinct by (scheme, stream) / call index."
 	return rep
 }
